@@ -283,6 +283,7 @@ fn free_running_trial(t: usize, gz: bool) -> Result<(), String> {
     use bytes::Bytes;
     use http_body::Body as _;
     use std::io::Write as _;
+    choose_drop_mode();
     let mut rb = http::Request::get("/");
     if gz {
         rb = rb.header("accept-encoding", "gzip");
@@ -314,7 +315,7 @@ fn free_running_trial(t: usize, gz: bool) -> Result<(), String> {
         if abort {
             w.abort(Box::new(std::io::Error::other("aborted by harness")));
         }
-        drop(w);
+        drop_in_mode(w);
         d2.store(true, std::sync::atomic::Ordering::SeqCst);
         accepted
     });
@@ -429,7 +430,8 @@ pub fn inline_waker(em: &mut Emit) {
     if shard_i != 0 {
         return;
     }
-    for (gz, abort) in [(false, false), (true, false), (false, true)] {
+    for (gz, abort, unwinding) in [(false, false, false), (true, false, false), (false, true, false), (false, false, true), (true, false, true)] {
+        UNWIND_DROPS.store(unwinding, std::sync::atomic::Ordering::SeqCst);
         let mut rb = http::Request::get("/");
         if gz {
             rb = rb.header("accept-encoding", "gzip");
@@ -448,7 +450,7 @@ pub fn inline_waker(em: &mut Emit) {
             if abort {
                 w.abort(Box::new(std::io::Error::other("aborted by harness")));
             }
-            drop(w);
+            drop_in_mode(w);
             let _ = tx.send(());
         });
         let returned = rx.recv_timeout(std::time::Duration::from_secs(10)).is_ok();
